@@ -1,9 +1,9 @@
-import AscaVerif.Lemmas.ParseSpans
+import AscaVerif.Lemmas.ParseSpans2
 import AscaVerif.Props.C17Lex
 import AscaVerif.Props.C02Lex
 /-! C17 for the rule parser: its errors are well placed, on every line.
 
-    Of the 36 `RuleSyntaxError` variants lexer and parser can return, 35 are covered: the 24 that carry a token
+    ALL 36 `RuleSyntaxError` variants lexer and parser can return are covered: the 24 that carry a token
     (`ExpectedArrow(Token)`, ...) and the three that carry a column (`UnknownCharacter`, `EmptyInput`, `EmptyOutput`)
     underline the parser's CURRENT token / its index, which is either a token of the lexer's list (whose span is inside
     the line: `Lex.lexLine_token_spans`) or the `Eol` the parser makes up after a comment, whose "position" is the token
@@ -12,10 +12,13 @@ import AscaVerif.Props.C02Lex
     `WordBoundLoc` and the three word-boundary errors underline a `#` token; `EmptySet` and `OptLocError` underline from
     an opening bracket to the last token consumed (ordered, because the lexer's tokens are); the two
     `DiacriticDoesNotMeetPreReqs` errors underline the segment's token and then the diacritic's token, in that order
-    (what the formatter's `" ".repeat(dia.start - elm.end)` needs).  The theorem is proved by the step lemmas of
-    `Lemmas/ParseSpans.lean` (the progress lemmas of C02 once more, under the stronger invariant).  NOT covered:
-    `UnexpectedDiacritic`, which underlines the last ITEM of a term - item positions are not tracked by the invariant; it
-    stays with the c17-spec search and the parse-ops comparison of spans. -/
+    (what the formatter's `" ".repeat(dia.start - elm.end)` needs); `UnexpectedDiacritic` underlines the last ITEM of a
+    term and then the stray diacritic token - every item the term functions return occupies a proper interval of the line
+    that ends where the token under the cursor begins, or earlier (`Lemmas/ParseItems.lean`: a segment with its
+    parameters, a group, a variable, a set, a syllable or structure - whose end is ONE BEFORE the next token when no
+    `:[...]` follows, `wpred` - ... function by function).  The theorem is proved by the step lemmas of
+    `Lemmas/ParseSpans.lean` / `ParseSpans2.lean` (the progress lemmas of C02 once more, under the stronger
+    invariant). -/
 namespace Asca.Parse.Spans
 open Asca.Parse
 open Lex (Token TK)
@@ -146,8 +149,7 @@ theorem parse_error_spans (toks : List Token) (hT : ToksOK L toks) (e : PErr) (h
       · cases h
       · cases h
 
-/-- **on every line**: an error of lexer + parser underlines an item, or columns inside `[0, len + 1]`, `start ≤ end` -/
-theorem parseLine_error_spans (src : Text) (e : PErr) (h : parseLine src = .err e) : ErrOK src.length e := by
+theorem parseLine_error_ok (src : Text) (e : PErr) (h : parseLine src = .err e) : ErrOK src.length e := by
   unfold parseLine at h
   cases hl : Lex.lexLine src with
   | ok toks => rw [hl] at h; exact parse_error_spans toks (toksOK_of_lex src toks hl) e h
@@ -157,33 +159,39 @@ theorem parseLine_error_spans (src : Text) (e : PErr) (h : parseLine src = .err 
   | panic p => rw [hl] at h; cases h
   | outOfFuel p => rw [hl] at h; cases h
 
+/-- **on every line**: every error of lexer + parser underlines columns inside `[0, len + 1]`, `start ≤ end`, a second
+    span beginning where the first ends or later -/
+theorem parseLine_error_spans (src : Text) (e : PErr) (h : parseLine src = .err e) : SpansOK src.length e.spans := by
+  have := parseLine_error_ok src e h
+  rcases this with hmem | hs
+  · simp [itemErrNames] at hmem
+  · exact hs
+
 /-- **such an error formats**: the formatter shows the line, does not panic, and puts its carets inside the line -/
 theorem parser_error_formats (groups : List (List Str)) (g l : Nat) (rg : List Str) (line : Str)
     (hg : groups[g]? = some rg) (hl : rg[l]? = some line) (e : PErr)
-    (he : parseLine (line.map Char.toNat) = .err e) (hn : e.name ∉ itemErrNames) :
+    (he : parseLine (line.map Char.toNat) = .err e) :
     ∀ sp ∈ e.spans, ∃ carets, ErrFmt.formatRule groups g l sp.1 sp.2 = .ok (line, carets) ∧
       ∀ i ∈ ErrFmt.caretCols carets, i ≤ line.length := by
   intro sp hsp
-  rcases parseLine_error_spans _ e he with h | h
-  · exact absurd h hn
-  · have := h.1 sp hsp
-    rw [List.length_map] at this
-    exact C17.format_well_placed groups g l sp.1 sp.2 rg line hg hl this.1 this.2
+  have h := parseLine_error_spans _ e he
+  have := h.1 sp hsp
+  rw [List.length_map] at this
+  exact C17.format_well_placed groups g l sp.1 sp.2 rg line hg hl this.1 this.2
 
 /-- the two-span errors (`DiacriticDoesNotMeetPreReqs*`) format: both caret groups sit under their tokens -/
-theorem parser_two_span_error_formats (src : Text) (e : PErr) (he : parseLine src = .err e) (hn : e.name ∉ itemErrNames)
+theorem parser_two_span_error_formats (src : Text) (e : PErr) (he : parseLine src = .err e)
     (a b : Nat × Nat) (hs : e.spans = [a, b]) :
     ∃ carets, ErrFmt.twoSpanLine a.1 a.2 b.1 b.2 = .ok carets ∧ carets.length = b.2 := by
-  rcases parseLine_error_spans src e he with h | h
-  · exact absurd h hn
-  · rw [hs] at h
-    have ha := h.1 a (by simp)
-    have hb := h.1 b (by simp)
-    have hab : a.2 ≤ b.1 := by
-      have := h.2
-      simp only [List.pairwise_cons, List.mem_singleton, forall_eq] at this
-      exact this.1
-    exact C17.twoSpan_ok a.1 a.2 b.1 b.2 src.length ⟨ha.1, hab, hb.1, hb.2⟩
+  have h := parseLine_error_spans src e he
+  rw [hs] at h
+  have ha := h.1 a (by simp)
+  have hb := h.1 b (by simp)
+  have hab : a.2 ≤ b.1 := by
+    have := h.2
+    simp only [List.pairwise_cons, List.mem_singleton, forall_eq] at this
+    exact this.1
+  exact C17.twoSpan_ok a.1 a.2 b.1 b.2 src.length ⟨ha.1, hab, hb.1, hb.2⟩
 
 /-! Non-vacuity: lines the parser rejects with token and column errors, among them the made-up `Eol` after a comment -/
 example : (match parseLine ("a > e / _ ;; c".toList.map Char.toNat) with | .err e => some e | _ => none) = some ⟨"ExpectedUnderline", [(4, 5)]⟩ := by decide +kernel
@@ -193,6 +201,10 @@ example : (match parseLine ("a > e / (C)".toList.map Char.toNat) with | .err e =
 example : (match parseLine ("(C) > e".toList.map Char.toNat) with | .err e => some e | _ => none) = some ⟨"OptLocError", [(0, 3)]⟩ := by
   decide +kernel
 example : (match parseLine ("a > {} / _".toList.map Char.toNat) with | .err e => some e | _ => none) = some ⟨"EmptySet", [(4, 6)]⟩ := by
+  decide +kernel
+example : (match parseLine ("a > %ʰ".toList.map Char.toNat) with | .err e => some e | _ => none) = some ⟨"UnexpectedDiacritic", [(4, 4), (5, 6)]⟩ := by
+  decide +kernel
+example : (match parseLine ("a:[+long]ʰ > e".toList.map Char.toNat) with | .err e => some e | _ => none) = some ⟨"UnexpectedDiacritic", [(0, 9), (9, 10)]⟩ := by
   decide +kernel
 example : (match parseLine ("   > a".toList.map Char.toNat) with | .err e => some e | _ => none) = some ⟨"UnknownCharacter", [(0, 1)]⟩ := by decide +kernel
 
